@@ -643,6 +643,9 @@ class BuiltinMixin(CallMixin):
             return z3.Unit(B(a[0]) if ops.is_byteslike(a[0]) else a[0])
         if name == "empty_seq":
             return z3.Empty(sort_of_type(args[0]))
+        if name == "val":
+            # val(x): the value inside an optional (meaningful under `not isnone(x)`)
+            return args[0].val if isinstance(args[0], Opt) else args[0]
         if name == "isnone":
             v = args[0]
             if isinstance(v, Opt):
